@@ -95,6 +95,7 @@ theorem privileged_tx_requires_signer (reg : Registry) (env : BlockEnv) (bs : Bl
       rw [hstep, hq] at this; exact absurd rfl this
     | err => cases hnf
     | diverge => cases hnf
+    | panic => cases hnf
 
 /-- `commitDpos_due`: an epoch change forced without the operator's witness succeeds only when it is due. -/
 theorem commitDpos_due (inv : Inv) (s : Svc) (sm : List (Bytes × Handler)) (addr : Addr) (args : Bytes)
@@ -110,13 +111,13 @@ theorem commitDpos_due (inv : Inv) (s : Svc) (sm : List (Bytes × Handler)) (add
 cache nor performed any other effect (so, by C15, the transaction leaves no trace at all). -/
 theorem failed_guard_no_write (inv : Inv) (s : Svc) (sm : List (Bytes × Handler)) (addr : Addr) (args : Bytes)
     (g : Guard) (req : Bytes → Addr) (due : Bool) (body : Bytes → Prog) (hg : g ≠ .none)
-    (hlen : ¬ s.contexts.length > maxContextLen)
+    (hlen : ¬ s.contexts.length > maxContextLen) (hnp : s.panicked = false)
     (hw : checkWitness s.signers (s.contexts ++ [addr]) (req args) = false)
     (hd : ¬ (g = .operatorOrDue ∧ due = true)) :
     (invokeBody leafHash inv s sm addr args (fun a => guarded g (req a) due (body a))).1 = .err ∧
     (invokeBody leafHash inv s sm addr args (fun a => guarded g (req a) due (body a))).2.effLog = s.effLog ∧
     (invokeBody leafHash inv s sm addr args (fun a => guarded g (req a) due (body a))).2.cache = s.cache :=
-  (invokeBody_guarded leafHash inv s sm addr args g req due body hg).2 hlen hw hd
+  (invokeBody_guarded leafHash inv s sm addr args g req due body hg).2 hlen hnp hw hd
 
 /-! ### Every registered method has the guard the property demands -/
 
